@@ -233,7 +233,14 @@ def exec_cases(pid, cases, tag):
     write_case_file(a, cases)
     rc, out, _ = sh([HARNESS, "exec", pid, "-in", a, "-out", b], env=goenv(), timeout=600)
     if rc != 0:
-        raise RuntimeError("harness exec failed: " + out)
+        # the process died on these cases: record that as the observation
+        tail = " ".join(out.strip().split("\n")[:3])[:300].replace("\t", " ")
+        with open(b, "w") as f:
+            for cs in cases:
+                f.write("\t".join(["begin", cs["id"]] + cs.get("variant", [])) + "\n")
+                for op in cs["ops"]:
+                    f.write("\t".join(op) + "\t=>\tcrash: " + tail + "\n")
+                f.write("end\n")
     rc, err = run_driver(pid, b, c)
     if rc != 0:
         raise RuntimeError("driver failed: " + err)
@@ -251,13 +258,67 @@ def gen_and_compare(pid, seed, tier, tag, log, timeout=3000):
                    env=goenv(), timeout=timeout)
     if rc != 0:
         log.append("harness gen failed rc=%d:\n%s" % (rc, o[-4000:]))
-        return None, {}, dt
+        crash = isolate_crash(pid, seed, tier, tag, log, o)
+        if crash is None:
+            return None, {}, dt
+        ops = crash
     rc, err = run_driver(pid, ops, out)
     if rc != 0:
         log.append("driver failed: " + err)
         return None, {}, dt
     st = json.load(open(stats)) if os.path.exists(stats) else {}
     return (ops, out), st, dt
+
+
+def read_case_file(path):
+    cases, cur = [], None
+    for line in open(path, encoding="utf-8", errors="replace"):
+        f = line.rstrip("\n").split("\t")
+        if f[0] == "begin" and len(f) >= 2:
+            cur = {"id": f[1], "variant": f[2:], "ops": []}
+            cases.append(cur)
+        elif f == ["end"]:
+            cur = None
+        elif cur is not None:
+            cur["ops"].append(f[:f.index("=>")] if "=>" in f else f)
+    return cases
+
+
+def isolate_crash(pid, seed, tier, tag, log, crash_output):
+    """The harness process died (a panic in a goroutine of the library cannot be recovered in-process).
+    Regenerate the cases without executing them and bisect for one case that kills the process; report it with the
+    observation `crash` so that the oracle rejects it."""
+    d = os.path.join(WORK, pid)
+    dry = os.path.join(d, tag + ".dry")
+    rc, o, _ = sh([HARNESS, "gen", pid, "-seed", str(seed), "-tier", tier, "-out", dry, "-dry"], env=goenv(), timeout=600)
+    if rc != 0:
+        return None
+    cases = read_case_file(dry)
+    def crashes(sub):
+        a, b = os.path.join(d, tag + ".bis.in"), os.path.join(d, tag + ".bis.out")
+        write_case_file(a, sub)
+        rc, out, _ = sh([HARNESS, "exec", pid, "-in", a, "-out", b], env=goenv(), timeout=600)
+        return rc != 0, out
+    bad, out = crashes(cases)
+    if not bad:
+        return None
+    while len(cases) > 1:
+        half = cases[:len(cases) // 2]
+        b, o2 = crashes(half)
+        if b:
+            cases, out = half, o2
+        else:
+            cases = cases[len(cases) // 2:]
+    c = cases[0]
+    tail = " ".join(out.strip().split("\n")[:3])[:300].replace("\t", " ")
+    path = os.path.join(d, tag + ".crash.ops")
+    with open(path, "w") as f:
+        f.write("\t".join(["begin", c["id"]] + c["variant"]) + "\n")
+        for op in c["ops"]:
+            f.write("\t".join(op) + "\t=>\tcrash: " + tail + "\n")
+        f.write("end\n")
+    log.append("isolated crashing case %s" % c["id"])
+    return path
 
 
 def minimise(pid, case, pred, budget_s=60):
